@@ -127,10 +127,37 @@ def printed_values(out, tag):
 def parse_sim_file(text):
     """A -simulate file=... trace file: list of (action name or None, {var: value})."""
     states = []
-    for m in re.finditer(r"\\\* (?:<(\w+)[^\n]*>|[^\n]*)\nSTATE_\d+ ==\n(.*?)(?=\n\n|\Z)", text, re.S):
+    for m in re.finditer(r"\\\* (?:<(\w+)[^\n]*>|[^\n]*)\nSTATE_\d+ ==[ ]*\n(.*?)(?=\n\n|\Z)", text, re.S):
         action, body = m.group(1), m.group(2)
         st = {}
         for vm in re.finditer(r"(?:^|\n)(?:/\\ )?(\w+) = (.*?)(?=\n/\\ \w+ = |\Z)", body, re.S):
             st[vm.group(1)] = parse(vm.group(2))
         states.append((action, st))
     return states
+
+
+def fast_tuples(out, tag):
+    """Values printed as <<"tag", ...>> consisting only of tuples, strings, integers and booleans.
+
+    TLC starts each printed value at column 0 and indents continuation lines, so the output is
+    split into blocks; brackets are rewritten and the block parsed as JSON (fast path for large
+    history exports)."""
+    import json
+    res = []
+    cur = None
+    head = re.compile(r'^<<\s*"%s"' % re.escape(tag))
+
+    def flush(block):
+        if block is None:
+            return
+        txt = " ".join(block).replace("<<", "[").replace(">>", "]").replace("TRUE", "true").replace("FALSE", "false")
+        res.append(json.loads(txt))
+
+    for line in out.splitlines():
+        if line[:1] not in (" ", "\t", ""):
+            flush(cur)
+            cur = [line] if head.match(line) else None
+        elif cur is not None:
+            cur.append(line)
+    flush(cur)
+    return res
